@@ -234,6 +234,17 @@ def _q_guard(ctx, fi, rule):
         ctx.check(rule, "ValueError" in ok[1], fi, ok[0], f"{fi.qualname}: M power-of-two guard", "raises ValueError", f"raises {ok[1]}, documented ValueError")
 
 
+def _grid_argmin(v):
+    """(grid, grid arguments, objective) when v is `linspace(a, b, n)[argmin(objective)]`, however the calls are spelt"""
+    a = v.single_atom() if isinstance(v, Form) else None
+    if not (a and a[0] == "idx" and isinstance(a[1], Form) and isinstance(a[2], Form)):
+        return None
+    g, i = a[1].single_atom(), a[2].single_atom()
+    if not (g and g[0] == "fn" and g[1] == "linspace" and i and i[0] == "fn" and i[1] == "argmin" and len(i[2]) == 1 and not i[3]):
+        return None
+    return a[1], list(g[2]), i[2][0]
+
+
 def rule_error_probabilities(ctx):
     pkg = ctx.pkg
     mu0, mu1, s0, s1 = S("eye_obj.mu0"), S("eye_obj.mu1"), S("eye_obj.s0"), S("eye_obj.s1")
@@ -241,14 +252,13 @@ def rule_error_probabilities(ctx):
     fi = pkg.func("ook.THRESHOLD_EST")
     it = Interp(pkg, param_classes={"eye_obj": "eye"})
     outs = it.run(fi)
-    am = [r for r in it.calls if r.callee == "numpy.argmin" and r.depth == 0]
-    ls = [r for r in it.calls if r.callee == "numpy.linspace" and r.depth == 0]
     rets = [o for o in outs if o.kind == "return"]
-    if len(am) == 1 and len(ls) == 1 and len(rets) == 1:
-        r = ls[0].result
-        ctx.check("C13.3", am[0].args[0] == ook_pe(mu0, mu1, s0, s1, r), fi, am[0].node, "ook.THRESHOLD_EST objective", "1/2[Q((mu1-r)/s1)+Q((r-mu0)/s0)]",
-                  f"objective {am[0].args[0]!r} differs from the OOK error probability"[:500])
-        ok = ls[0].args[0] == mu0 and ls[0].args[1] == mu1 and rets[0].value == Form.atom(("idx", r, am[0].result))
+    ga = _grid_argmin(rets[0].value) if len(rets) == 1 else None
+    if ga is not None:
+        r, gargs, obj = ga
+        ctx.check("C13.3", obj == ook_pe(mu0, mu1, s0, s1, r), fi, rets[0].node, "ook.THRESHOLD_EST objective", "1/2[Q((mu1-r)/s1)+Q((r-mu0)/s0)]",
+                  f"objective {obj!r} differs from the OOK error probability"[:500])
+        ok = len(gargs) >= 2 and gargs[0] == mu0 and gargs[1] == mu1
         ctx.check("C13.5", ok, fi, rets[0].node, "ook.THRESHOLD_EST result", "element of linspace(mu0, mu1, n) at the argmin", "threshold is not taken from linspace(mu0, mu1, n) at the minimiser: it can leave [mu0, mu1]")
     else:
         ctx.unknown("C13.3", fi, fi.node, "ook.THRESHOLD_EST", "argmin over a linspace grid not found")
@@ -288,14 +298,13 @@ def rule_error_probabilities(ctx):
     fi = pkg.func("ppm.THRESHOLD_EST")
     it = Interp(pkg, param_classes={"eye_obj": "eye"}, assumptions={"eye_obj": ("inst", "eye")})
     outs = it.run(fi)
-    am = [r for r in it.calls if r.callee == "numpy.argmin" and r.depth == 0]
-    ls = [r for r in it.calls if r.callee == "numpy.linspace" and r.depth == 0]
     rets = [o for o in outs if o.kind == "return"]
-    if len(am) == 1 and len(ls) == 1 and len(rets) == 1:
-        r = ls[0].result
-        ctx.check("C13.3", am[0].args[0] == ppm_hard(mu0, mu1, s0, s1, r, S("M")), fi, am[0].node, "ppm.THRESHOLD_EST objective", "1-Q((r-mu1)/s1)*(1-Q((r-mu0)/s0))^(M-1)",
-                  f"objective {am[0].args[0]!r} differs from the PPM hard-decision symbol error"[:500])
-        ok = ls[0].args[0] == mu0 and ls[0].args[1] == mu1 and rets[0].value == Form.atom(("idx", r, am[0].result))
+    ga = _grid_argmin(rets[0].value) if len(rets) == 1 else None
+    if ga is not None:
+        r, gargs, obj = ga
+        ctx.check("C13.3", obj == ppm_hard(mu0, mu1, s0, s1, r, S("M")), fi, rets[0].node, "ppm.THRESHOLD_EST objective", "1-Q((r-mu1)/s1)*(1-Q((r-mu0)/s0))^(M-1)",
+                  f"objective {obj!r} differs from the PPM hard-decision symbol error"[:500])
+        ok = len(gargs) >= 2 and gargs[0] == mu0 and gargs[1] == mu1
         ctx.check("C13.5", ok, fi, rets[0].node, "ppm.THRESHOLD_EST result", "element of linspace(mu0, mu1, n) at the argmin", "threshold is not taken from linspace(mu0, mu1, n) at the minimiser")
     else:
         ctx.unknown("C13.3", fi, fi.node, "ppm.THRESHOLD_EST", "argmin over a linspace grid not found")
